@@ -135,10 +135,38 @@ class ParseFn:
 
 
 def _check_none_iff_no_match(ctx: Ctx, p: ParseFn) -> None:
-    """returns None exactly on the non-matching branch of `if <match>`."""
+    """returns None exactly on the non-matching branch of `if <match>`.  Decided on the CFG for the plain shapes; a problem found there (or a
+    shape the CFG reading does not recognise, e.g. one `return result` shared by both branches) is settled by the abstract execution of
+    the function for the two cases "the regex matched" / "it did not": a FAIL needs a value that execution establishes."""
     fn, m = p.fn, p.m
-    g = pf.cfg(fn)
     cons = f'{F_PARSE}::{p.name}::None iff the regex does not match'
+    holder: Optional[str] = None
+    try:
+        problems, holder = _none_iff_no_match_cfg(ctx, p)
+    except AnalysisError as e:
+        problems = [f'not recognised on the control-flow graph ({e})']
+    if problems:
+        # confirm by abstract execution (SymExec is defined below; nothing is run on inputs: the cases are "matched, unit u" and "not matched")
+        confirmed: List[str] = []
+        try:
+            v, st = SymExec(p, None, matched=False).run()
+            if not (isinstance(v, K) and v.v is None):
+                confirmed.append(f'without a match `{pf.nsrc(st) if st is not None else "the end of the function"}` returns a value, not None')
+        except _Raises as ex:
+            confirmed.append(f'without a match the function raises {ex} instead of returning None')
+        try:
+            v, st = SymExec(p, None, matched=True).run()
+            if isinstance(v, K) and v.v is None:
+                confirmed.append(f'on a successful match `{pf.nsrc(st) if st is not None else "the end of the function"}` returns None, the answer for "not a size"')
+        except _Raises:
+            pass  # reported by R4 with the unit case
+        problems = confirmed
+    ctx.check(not problems, 'R1', cons, '; '.join(problems), m.path, fn.lineno, detail={'match_variable': holder, 'mode': p.mode})
+
+
+def _none_iff_no_match_cfg(ctx: Ctx, p: ParseFn) -> Tuple[List[str], Optional[str]]:
+    fn = p.fn
+    g = pf.cfg(fn)
     # the call must be `v = <call>` and v single-assignment
     holder = None
     for st in pf.walk_shallow(fn):
@@ -153,8 +181,8 @@ def _check_none_iff_no_match(ctx: Ctx, p: ParseFn) -> None:
         while isinstance(e, ast.UnaryOp) and isinstance(e.op, ast.Not):
             neg, e = not neg, e.operand
         if isinstance(e, ast.Compare) and len(e.ops) == 1 and isinstance(e.comparators[0], ast.Constant) and e.comparators[0].value is None \
-                and isinstance(e.ops[0], (ast.Is, ast.IsNot)):
-            neg = neg != isinstance(e.ops[0], ast.Is)
+                and isinstance(e.ops[0], (ast.Is, ast.IsNot, ast.Eq, ast.NotEq)):
+            neg = neg != isinstance(e.ops[0], (ast.Is, ast.Eq))
             e = e.left
         if isinstance(e, ast.Name) and e.id == holder:
             ctx.need(gate is None, f'{p.name}: the match object is tested more than once')
@@ -189,7 +217,7 @@ def _check_none_iff_no_match(ctx: Ctx, p: ParseFn) -> None:
     for n in no_rets:
         if not is_none(n):
             problems.append(f'without a match `{n.text()}` returns a value')
-    ctx.check(not problems, 'R1', cons, '; '.join(problems), m.path, fn.lineno, detail={'match_variable': holder, 'mode': p.mode})
+    return problems, holder
 
 
 # --------------------------------------------------------------------------------------
@@ -664,7 +692,9 @@ def _check_validation_applied(ctx: Ctx, vlib: 'ValidatorLib', mv: pf.Module, ser
     resources['storage'] before that, is accepted for exactly the strings the client accepts as a storage size."""
     fname = 'validate_and_clean_jobs'
     ctx.need(mv.has_func(fname), f'{F_VALIDATE}: {fname} vanished')
-    fn = mv.func(fname)
+    # module-level helpers (a per-job helper extracted from the loop body) are analysed inlined; the deprecated-key handler stays a call
+    mv_i, _il = inline.inline_functions(mv, fname, exclude=('handle_deprecated_job_keys',))
+    fn = mv_i.func(fname)
     loops = [st for st in fn.body if isinstance(st, ast.For)]
     ctx.need(len(loops) == 1 and isinstance(loops[0].target, (ast.Name, ast.Tuple)), f'{F_VALIDATE}::{fname}: expected one loop over the jobs')
     loop = loops[0]
@@ -674,7 +704,10 @@ def _check_validation_applied(ctx: Ctx, vlib: 'ValidatorLib', mv: pf.Module, ser
     for i, st in enumerate(loop.body):
         if isinstance(st, ast.Expr) and isinstance(st.value, ast.Call):
             c = st.value
-            if pf.dotted(c.func) == 'job_validator.validate' and len(c.args) == 2 and isinstance(c.args[1], ast.Name) and c.args[1].id in tnames:
+            # validate(name, obj): positionally or by keyword
+            vargs = dict(zip(('name', 'obj'), c.args), **{k.arg: k.value for k in c.keywords if k.arg})
+            if pf.dotted(c.func) == 'job_validator.validate' and set(vargs) == {'name', 'obj'} and len(c.args) + len(c.keywords) == 2 \
+                    and isinstance(vargs['obj'], ast.Name) and vargs['obj'].id in tnames:
                 applied = (i, c)
             if pf.dotted(c.func) == 'handle_deprecated_job_keys' and len(c.args) == 2 and isinstance(c.args[1], ast.Name) and c.args[1].id in tnames:
                 deprecated = (i, c)
@@ -682,6 +715,11 @@ def _check_validation_applied(ctx: Ctx, vlib: 'ValidatorLib', mv: pf.Module, ser
     cons = f'{F_VALIDATE}::{fname}::job_validator.validate(job) for every job'
     if applied is None:
         ctx.need(not anywhere, f'{F_VALIDATE}::{fname}: job_validator.validate is called in a shape that is not recognised')
+        # "never applied" is evidence only when no function this one calls mentions job_validator itself
+        mentions = {q for q, f in mv.functions() if q != fname and any(isinstance(x, ast.Name) and x.id == 'job_validator' for x in ast.walk(f))}
+        called = {pf.dotted(c.func) for c in pf.calls_in(fn, into_nested_defs=True)}
+        ctx.need(not (mentions & called) and not any(isinstance(x, ast.Name) and x.id == 'job_validator' for x in ast.walk(fn)),
+                 f'{F_VALIDATE}::{fname}: job_validator is used through {sorted(mentions & called) or "a local alias"}; not recognised')
         ctx.bad('R1', cons, f'{fname} never applies job_validator to the jobs: the server accepts every resource string, the client does not',
                 mv.path, fn.lineno)
         return
@@ -716,6 +754,8 @@ def _check_validation_applied(ctx: Ctx, vlib: 'ValidatorLib', mv: pf.Module, ser
     for c in pf.calls_in(h):
         if isinstance(c.func, ast.Attribute) and c.func.attr == 'validate' and len(c.args) == 2 and is_pvc(c.args[1]):
             v = c.func.value
+            if isinstance(v, ast.Name) and v.id in pf.assignments(h):
+                v = pf.resolve_expr(h, v)  # a local holding the validator
             # job_validator['resources']['storage'] -> the dict entry (KeyedValidator.__getitem__)
             path = []
             while isinstance(v, ast.Subscript) and isinstance(v.slice, ast.Constant) and isinstance(v.slice.value, str):
@@ -1076,11 +1116,114 @@ class SymExec:
             return DictV(out)
         if isinstance(e, (ast.Tuple, ast.List)) and not any(isinstance(x, ast.Starred) for x in e.elts):
             return Tup([self.expr(x, env, fn) for x in e.elts])
+        if isinstance(e, ast.JoinedStr):
+            # an f-string over constants (the keys of a unit table built by a comprehension): folded exactly
+            text = ''
+            for v in e.values:
+                if isinstance(v, ast.Constant) and isinstance(v.value, str):
+                    text += v.value
+                elif isinstance(v, ast.FormattedValue) and v.conversion == -1 and v.format_spec is None:
+                    x = self.expr(v.value, env, fn)
+                    if not (isinstance(x, K) and isinstance(x.v, (str, int)) and not isinstance(x.v, bool)):
+                        raise self.fail(e, 'f-string over a value that is not a constant')
+                    text += str(x.v)
+                else:
+                    raise self.fail(e, 'f-string with a conversion / format spec')
+            return K(text)
+        if isinstance(e, (ast.DictComp, ast.ListComp, ast.GeneratorExp)):
+            return self.comprehension(e, env, fn)
         if isinstance(e, ast.Subscript):
             return self.subscript(self.expr(e.value, env, fn), e, env, fn)
         if isinstance(e, ast.Call):
             return self.call(e, env, fn)
+        if isinstance(e, ast.NamedExpr) and isinstance(e.target, ast.Name):
+            v = self.expr(e.value, env, fn)
+            env[e.target.id] = v
+            return v
         raise self.fail(e)
+
+    # ---- constant collections (a unit table built by a comprehension / dict(...) / zip(...): closed expressions, folded exactly)
+    _MAX_ITEMS = 4096
+
+    def iterate(self, v: Any, e: ast.AST) -> list:
+        if isinstance(v, Tup):
+            return list(v.items)
+        if isinstance(v, K) and isinstance(v.v, str):
+            return [K(ch) for ch in v.v]
+        if isinstance(v, DictV):
+            return [K(k) for k in v.items]
+        raise self.fail(e, 'iteration over something that is not a constant collection')
+
+    def comprehension(self, e: ast.AST, env: Dict[str, Any], fn: pf.FuncDef) -> Any:
+        out_d: dict = {}
+        out_l: list = []
+        count = [0]
+
+        def rec(i: int, env2: Dict[str, Any]) -> None:
+            if i == len(e.generators):  # type: ignore[attr-defined]
+                count[0] += 1
+                if count[0] > self._MAX_ITEMS:
+                    raise self.fail(e, 'comprehension with too many elements')
+                if isinstance(e, ast.DictComp):
+                    kv = self.expr(e.key, env2, fn)
+                    if not isinstance(kv, K) or isinstance(kv.v, float):
+                        raise self.fail(e, 'dict key')
+                    out_d[kv.v] = self.expr(e.value, env2, fn)
+                else:
+                    out_l.append(self.expr(e.elt, env2, fn))  # type: ignore[attr-defined]
+                return
+            g = e.generators[i]  # type: ignore[attr-defined]
+            if g.is_async:
+                raise self.fail(e, 'async comprehension')
+            for item in self.iterate(self.expr(g.iter, env2, fn), e):
+                env3 = dict(env2)
+                self.assign(g.target, item, env3, e)
+                ok = True
+                for c in g.ifs:
+                    t = self.truth(self.expr(c, env3, fn))
+                    if t is None:
+                        raise self.fail(c, 'comprehension condition on an untracked quantity')
+                    ok = ok and t
+                if ok:
+                    rec(i + 1, env3)
+        rec(0, dict(env))
+        return DictV(out_d) if isinstance(e, ast.DictComp) else Tup(out_l)
+
+    def const_builtin(self, name: str, e: ast.Call, env: Dict[str, Any], fn: pf.FuncDef) -> Any:
+        args = [self.expr(a, env, fn) for a in e.args]
+        if any(k.arg is None for k in e.keywords):
+            raise self.fail(e, '** arguments')
+        kw = {k.arg: self.expr(k.value, env, fn) for k in e.keywords}
+
+        def ival(v: Any) -> int:
+            if not (isinstance(v, K) and isinstance(v.v, int) and not isinstance(v.v, bool)):
+                raise self.fail(e, 'argument that is not an integer constant')
+            return v.v
+        if name == 'enumerate' and len(args) in (1, 2) and set(kw) <= {'start'} and not (len(args) == 2 and kw):
+            start = ival(args[1]) if len(args) == 2 else (ival(kw['start']) if kw else 0)
+            return Tup([Tup([K(start + i), x]) for i, x in enumerate(self.iterate(args[0], e))])
+        if name == 'zip' and args and not kw:
+            return Tup([Tup(list(t)) for t in zip(*[self.iterate(a, e) for a in args])])
+        if name == 'range' and 1 <= len(args) <= 3 and not kw:
+            r = range(*[ival(a) for a in args])
+            if len(r) > self._MAX_ITEMS:
+                raise self.fail(e, 'range too long')
+            return Tup([K(i) for i in r])
+        if name in ('tuple', 'list') and len(args) <= 1 and not kw:
+            return Tup(self.iterate(args[0], e) if args else [])
+        if name == 'dict' and len(args) <= 1:
+            out: dict = {}
+            if args:
+                if isinstance(args[0], DictV):
+                    out.update(args[0].items)
+                else:
+                    for pair in self.iterate(args[0], e):
+                        if not (isinstance(pair, Tup) and len(pair.items) == 2 and isinstance(pair.items[0], K) and not isinstance(pair.items[0].v, float)):
+                            raise self.fail(e, 'dict() of something that is not a sequence of constant pairs')
+                        out[pair.items[0].v] = pair.items[1]
+            out.update(kw)
+            return DictV(out)
+        raise self.fail(e, 'call')
 
     def compare(self, op: ast.cmpop, a: Any, b: Any, e: ast.AST) -> Any:
         if isinstance(op, (ast.Is, ast.IsNot)) and isinstance(b, K) and b.v is None:
@@ -1211,6 +1354,8 @@ class SymExec:
     def arith(self, op: ast.operator, a: Any, b: Any, e: ast.AST) -> Any:
         if isinstance(a, Alt) or isinstance(b, Alt):
             return _hull([self.arith(op, x, y, e) for x in (a.alts if isinstance(a, Alt) else [a]) for y in (b.alts if isinstance(b, Alt) else [b])])
+        if isinstance(a, DictV) and isinstance(b, DictV) and isinstance(op, ast.BitOr):
+            return DictV({**a.items, **b.items})
         ka, kb = _is_num_k(a), _is_num_k(b)
         # constants: folded exactly (Python semantics: int / int is a float)
         if ka and kb:
@@ -1357,6 +1502,9 @@ class SymExec:
     def call(self, e: ast.Call, env: Dict[str, Any], fn: pf.FuncDef) -> Any:
         if e is self.p.call:
             return MatchV() if self.matched else K(None)
+        if isinstance(e.func, ast.Name) and e.func.id in ('enumerate', 'zip', 'range', 'tuple', 'list', 'dict') and e.func.id not in env \
+                and e.func.id not in pf.assignments(fn) and e.func.id not in self.imports and not self.m.has_func(e.func.id) and not sp.module_bindings(self.m, e.func.id):
+            return self.const_builtin(e.func.id, e, env, fn)
         if e.keywords and not (isinstance(e.func, ast.Name) and self.m.has_func(e.func.id)):
             raise self.fail(e, 'keyword arguments')
         if any(isinstance(a, ast.Starred) for a in e.args):
@@ -1521,6 +1669,8 @@ class SymExec:
             raise _Raises(f"AttributeError: 'NoneType' object has no attribute {attr!r}")
         if isinstance(recv, DictV) and attr == 'get' and 1 <= len(args) <= 2 and isinstance(args[0], K) and not isinstance(args[0].v, float):
             return recv.items.get(args[0].v, args[1] if len(args) == 2 else K(None))
+        if isinstance(recv, DictV) and attr in ('items', 'keys', 'values') and not args:
+            return Tup([Tup([K(k), v]) if attr == 'items' else (K(k) if attr == 'keys' else v) for k, v in recv.items.items()])
         if isinstance(recv, Num) and attr in ('__floor__', '__ceil__', '__trunc__') and not args:
             return self.rounding(attr.strip('_'), recv, e)
         if isinstance(recv, Num) and attr == 'limit_denominator':
@@ -1905,9 +2055,17 @@ def run(ctx: Ctx) -> None:
         ctx.unit('regexes')
     # conv_factor
     cf = sp.module_const(mp, 'conv_factor')
-    ctx.need(isinstance(cf, ast.Dict) and all(isinstance(k, ast.Constant) and isinstance(k.value, str) for k in cf.keys), 'conv_factor is not a dict literal with string keys')
-    table = {k.value: _fold_int(mp, v) for k, v in zip(cf.keys, cf.values)}  # type: ignore[union-attr]
-    ctx.need(len(table) == len(cf.keys), 'conv_factor has duplicate keys')  # type: ignore[union-attr]
+    if isinstance(cf, ast.Dict) and all(isinstance(k, ast.Constant) and isinstance(k.value, str) for k in cf.keys):
+        table = {k.value: _fold_int(mp, v) for k, v in zip(cf.keys, cf.values)}  # type: ignore[union-attr]
+        ctx.need(len(table) == len(cf.keys), 'conv_factor has duplicate keys')  # type: ignore[union-attr]
+    else:
+        # built by a comprehension / dict(...) / a merge of literal tables: a closed expression, constant-folded by the same abstract machine
+        # that later reads `conv_factor[suffix]` (no input is involved)
+        folded = SymExec(parse['memory'], None).expr(cf, {}, parse['memory'].fn)
+        ctx.need(isinstance(folded, DictV) and all(isinstance(k, str) for k in folded.items)
+                 and all(isinstance(v, K) and isinstance(v.v, int) and not isinstance(v.v, bool) for v in folded.items.values()),
+                 'conv_factor does not fold to a table of string keys and integer factors')
+        table = {k: v.v for k, v in folded.items.items()}
     for res in ('memory', 'storage'):
         missing = [u for u in units_by_res[res] if u not in table]
         dead = [u for u in table if u not in units_by_res[res]]
